@@ -44,12 +44,14 @@ Notation dec_onto := (dec_onto c sch).
 
 Lemma dec_onto_zero_is_dec_l : forall w t, dec_onto (zero_val t) t w = dec t w.
 Proof.
-  induction w using wire_ind'; intros ty0; destruct ty0; try reflexivity.
+  induction w using wire_ind'; intros ty0; destruct ty0; try reflexivity; try (destruct c; reflexivity).
   - (* slice *)
     cbn. f_equal. induction H as [|x r Hx Hr IH]; [reflexivity|]. cbn. rewrite Hx. now rewrite IH.
   - (* map *)
     cbn. f_equal.
-    induction H as [|[k x] r Hx Hr IH]; [reflexivity|]. cbn in *. rewrite Hx. now rewrite IH.
+    induction H as [|[k x] r Hx Hr IH]; [reflexivity|]. cbn [snd] in Hx.
+    match goal with |- context [dec_onto ?p ty0 x] => replace p with (zero_val ty0) by (destruct c, x; reflexivity) end.
+    rewrite Hx. now rewrite IH.
   - (* struct *)
     cbn. destruct (fields_of sch name) as [fs|]; [|reflexivity]. f_equal.
     induction fs as [|f fr IHf]; [reflexivity|]. cbn. rewrite IHf. f_equal.
@@ -174,4 +176,52 @@ Proof.
   split; [vm_compute; reflexivity|]. split; [reflexivity|]. split; [discriminate|].
   split; [vm_compute; reflexivity|]. split; [vm_compute; reflexivity|].
   split; [reflexivity|]. split; [reflexivity|]. vm_compute. discriminate.
+Qed.
+
+(* ---------- streams of records ---------- *)
+Section Stream.
+Variable c : codec.
+Variable sch : schema.
+Hypothesis Hs : schema_ok c sch = true.
+Variable t : ty.
+
+(* the destination declared inside the loop: every record of a well-formed stream comes back as itself, whatever the
+   destination held before the loop *)
+Lemma stream_fresh_l vs : forallb (fun v => wf_val c sch true t false v && negb (has_iface sch t v)) vs = true ->
+  exists ws, stream_encode c sch t vs = Ok ws /\ forall dest, stream_decode c sch t false dest ws = Ok vs.
+Proof.
+  induction vs as [|v r IH]; intros H; [exists []; split; [reflexivity | intros; reflexivity]|].
+  cbn [forallb] in H. apply andb_true_iff in H as [Hv Hr]. apply andb_true_iff in Hv as [W I]. apply negb_true_iff in I.
+  destruct (codec_roundtrip_guarded_l c sch Hs t v W I) as [w [E D]].
+  destruct (IH Hr) as [ws [Es Ds]].
+  exists (w :: ws). split.
+  - cbn [stream_encode]. rewrite E. cbn [rbind]. rewrite Es. reflexivity.
+  - intros dest. cbn [stream_decode]. rewrite dec_onto_zero_is_dec_l, D. cbn [rbind]. rewrite (Ds v). reflexivity.
+Qed.
+End Stream.
+
+(* the destination hoisted out of the loop: two records are enough, in either codec *)
+Definition stream_a : pin :=
+  mk_pin (mk_opts 2 3 "first" 0 0 [] None [("owner", "alice")] None []) (Some "QmFirst") 2 [TOk "QmPeerA"] (-1) None.
+Definition stream_b : pin :=
+  mk_pin (mk_opts 0 0 "" 1 0 [] None [("tier", "gold")] None []) (Some "QmSecond") 2 [] 0 None.
+(* msgpack: every empty member of the second pin is absent from the wire and keeps the first pin's value; the maps merge *)
+Definition stream_b_msgpack : pin :=
+  mk_pin (mk_opts 2 3 "first" 1 0 [] None [("owner", "alice"); ("tier", "gold")] None []) (Some "QmSecond") 2 [TOk "QmPeerA"] (-1) None.
+(* JSON: every member but pin_update is written, so only the map shows it: the first pin's metadata stays *)
+Definition stream_b_json : pin :=
+  mk_pin (mk_opts 0 0 "" 1 0 [] None [("owner", "alice"); ("tier", "gold")] None []) (Some "QmSecond") 2 [] 0 None.
+
+Lemma stream_reused_refuted_l : forall c,
+  let vs := [pin_to_val stream_a; pin_to_val stream_b] in
+  let t := TStruct "Pin" in
+  forallb (fun v => wf_val c api_schema true t false v && negb (has_iface api_schema t v)) vs = true /\
+  exists ws, stream_encode c api_schema t vs = Ok ws /\
+    stream_decode c api_schema t false (zero_val t) ws = Ok vs /\
+    stream_decode c api_schema t true (zero_val t) ws
+      = Ok [pin_to_val stream_a; pin_to_val (match c with Msgpack => stream_b_msgpack | Json => stream_b_json end)] /\
+    stream_decode c api_schema t true (zero_val t) ws <> Ok vs.
+Proof.
+  intros [|]; (split; [vm_compute; reflexivity|]); eexists; (split; [vm_compute; reflexivity|]);
+    (split; [vm_compute; reflexivity|]); (split; [vm_compute; reflexivity|]); vm_compute; discriminate.
 Qed.
